@@ -120,7 +120,9 @@ claim("C09",
       "Theorems (Coq, unbounded over rectangular attribute matrices): expansion to the full grid keeps "
       "value[r mod R][c mod C] at every cell; after column removal the value at displayed column j is the user's value at "
       "the original column of j; per-page re-basing reads table row start+i (scalars untouched); column order is "
-      "preserved. Against the implementation: check_c09 renders the expected cell from the attributes at the cell's "
+      "preserved; C09_page_binding composes them (after slicing AND re-basing, page row i / displayed column j reads the user's "
+      "attribute at table row start+i / original column of j) and C09_page_fields shows every attribute of the page's record "
+      "except border_top / border_bottom is exactly that. Against the implementation: check_c09 renders the expected cell from the attributes at the cell's "
       "original (row, column) and compares every character / paragraph / cell / border property and \\cellx of every data "
       "cell on every page, for all attributes in scalar / per-column / matrix shapes with 0..k removed columns.",
       "The cell emitter (Encode.v) is shared between the expected cell and the model and is validated by C01's strict token "
